@@ -268,6 +268,9 @@ def judgeSched (a : Acc) (l : String) (op obs : List String) : J Acc := do
   let al := kvGet kv "al" == some "1"
   let ag := kvGet kv "ag" == some "1"
   let lt := kvGet kv "lt" == some "1"
+  -- rel ≠ 0: the case's origin is `rel` ns before the wall clock's now, all times on the wire are relative to it
+  let rel := (kvInt kv "rel").getD 0
+  let nowA : Int := if rel != 0 then rel else nowAssumed
   let some ticksS := kvGet kv "ticks" | bad l
   let some ticks := (if ticksS == "-" then some [] else (ticksS.splitOn ",").mapM String.toInt?) | bad l
   let decl := parseDBRPs ((kvGet kv "decl").getD "")
@@ -332,20 +335,20 @@ def judgeSched (a : Acc) (l : String) (op obs : List String) : J Acc := do
           else if o.gb != some g then .error (.specfail "group-by-kept" s!"tick {T}: group by {o.gb}, configured {g}")
         | none => if o.gb.isSome then .error (.specfail "group-by-kept" s!"tick {T}: unexpected time dimension")
       -- (4) history = live
-      let s' := effStop stop nowAssumed
+      let s' := effStop stop nowA
       if lt then
         if !ticksExact specSch start s' start ticks then bad s!"the injected ticks are not the live ticks of the span: {l}"
-        let expect := (L.zip ticks).filter (fun p => decide (p.2 - off ≤ nowAssumed)) |>.map (·.1.raw)
+        let expect := (L.zip ticks).filter (fun p => decide (p.2 - off ≤ nowA)) |>.map (·.1.raw)
         if H.map (·.raw) != expect then
           .error (.specfail "historical-equals-live" s!"span ({start},{s'}]: historical {H.map (·.raw)} live {expect}")
         if H2.map (·.raw) != expect then
           .error (.specfail "historical-after-live" s!"span ({start},{s'}] after the live ticks: historical {H2.map (·.raw)} live {expect}")
       -- model
-      let some Hm := queries next off per q0 start stop nowAssumed | .error (.mismatch "model Clone failed")
+      let some Hm := queries next off per q0 start stop nowA | .error (.mismatch "model Clone failed")
       if !sameList H Hm then .error (.mismatch s!"historical list differs from the model: observed {H.map (·.raw)}")
       if !sameList L (liveRun off per q0 ticks) then .error (.mismatch s!"live list differs from the model: observed {L.map (·.raw)}")
       let qf := liveFinal off per q0 ticks
-      let some H2m := queries next off per qf start stop nowAssumed | .error (.mismatch "model Clone failed")
+      let some H2m := queries next off per qf start stop nowA | .error (.mismatch "model Clone failed")
       if !sameList H2 H2m then .error (.mismatch s!"historical list after live ticks differs from the model: observed {H2.map (·.raw)}")
       -- coverage
       let a := shapeBranches a user
@@ -357,6 +360,10 @@ def judgeSched (a : Acc) (l : String) (op obs : List String) : J Acc := do
       let a := a.addIf (lt && H.isEmpty) "hist-empty"
       let a := a.addIf (lt && ticks.getLast? == some s') "hist-stop-on-tick"
       let a := a.addIf (lt && !ticks.isEmpty && H.isEmpty) "hist-now-cutoff"
+      let a := a.addIf (rel != 0 && H.length < ticks.length) "now-cutoff-mid-span"
+      let a := a.addIf (rel != 0 && off < 0 && H.length < ticks.length) "now-cutoff-stop-after-now-tick-before"
+      let a := a.addIf (rel != 0 && off > 0) "now-cutoff-offset-positive"
+      let a := a.addIf (rel != 0 && stop.isNone) "stop-zero-is-now"
       let a := a.addIf (decide (off > per)) "offset-above-period"
       let a := a.addIf (decide (off < 0)) "offset-negative"
       let a := a.addIf (per == 0) "period-0"
